@@ -627,6 +627,74 @@ Qed.
 End AsmP.
 
 (* ------------------------------------------------------------------ *)
+(* (d) component order / sign conventions                              *)
+(* ------------------------------------------------------------------ *)
+From GB Require Import Model.Shell Model.Spherical.
+
+Definition flip_label (flip : bool) (lb : label) : label :=
+  let '(neg, sine, m) := lb in (xorb neg flip, sine, m).
+
+Section ConvP.
+Context {F : Type} (K : Fops F) (Kf : is_field K).
+Add Field KF_conv : Kf.
+Definition sgn (flip : bool) : F := if flip then fopp K (f1 K) else f1 K.
+
+(* A shell reporting its Cartesian components in the order carts[pi[0]], carts[pi[1]], ... and
+   its spherical labels as (+/-) labels[sg[0]], ... gets the transform of the reference
+   convention with columns permuted by pi and rows permuted / signed by sg. *)
+Lemma sph_transform_convention l (carts : list comp) (labels : list label)
+      (pi : list nat) (sg : list (nat * bool)) dc dl :
+  Forall (fun k => k < length carts) pi -> Forall (fun p => fst p < length labels) sg ->
+  sph_transform K l (map (fun k => nth k carts dc) pi)
+                    (map (fun p => flip_label (snd p) (nth (fst p) labels dl)) sg)
+  = map (fun p => map (fun k => fmul K (sgn (snd p))
+                                  (nth k (nth (fst p) (sph_transform K l carts labels) []) (f0 K))) pi) sg.
+Proof.
+  intros Hpi Hsg. unfold sph_transform at 1. rewrite map_map. apply map_ext_in. intros [k flip] Hin.
+  rewrite Forall_forall in Hsg. specialize (Hsg _ Hin). cbn [fst snd] in *.
+  set (rowf := fun lb : label => let '(neg, sine, m) := lb in
+                map (fun c => fmul K (fmul K (if (neg : bool) then fopp K (f1 K) else f1 K)
+                  (harmonic_coeff K l m sine c)) (comp_scale K l c)) carts).
+  assert (Erow : nth k (sph_transform K l carts labels) [] = rowf (nth k labels dl)).
+  { unfold sph_transform. change (map _ labels) with (map rowf labels).
+    rewrite (nth_indep _ [] (rowf dl)) by (now rewrite map_length). apply map_nth. }
+  rewrite Erow. destruct (nth k labels dl) as [[neg sine] m]. cbn [flip_label]. unfold rowf.
+  rewrite map_map. apply map_ext_in. intros kc Hkc.
+  rewrite Forall_forall in Hpi. specialize (Hpi _ Hkc).
+  set (g := fun c => fmul K (fmul K (if neg then fopp K (f1 K) else f1 K) (harmonic_coeff K l m sine c))
+                       (comp_scale K l c)).
+  rewrite (nth_indep _ (f0 K) (g dc)) by (now rewrite map_length).
+  rewrite (map_nth g carts dc kc). unfold g, sgn.
+  destruct neg, flip; cbn [xorb]; ring.
+Qed.
+End ConvP.
+
+Section ConvOut.
+Context {F : Type} (K : Fops F).
+Context {A : Type} (azero : A) (aadd : A -> A -> A) (ascale : F -> A -> A).
+Hypothesis Sz : forall s, ascale s azero = azero.
+Hypothesis Sadd : forall s x y, ascale s (aadd x y) = aadd (ascale s x) (ascale s y).
+Hypothesis Smul : forall s a x, ascale (fmul K s a) x = ascale s (ascale a x).
+
+Lemma dot_scaled s t (v : list A) :
+  dot azero aadd ascale (map (fmul K s) t) v = ascale s (dot azero aadd ascale t v).
+Proof.
+  revert v; induction t as [|a t IH]; intros [|x v]; cbn; try (now rewrite Sz).
+  now rewrite IH, Sadd, Smul.
+Qed.
+
+(* the output of a spherical shell follows the rows of its transform: rows permuted and
+   signed by sg give outputs permuted and signed by sg (any block v, any T) *)
+Lemma lin_rows_convention (T : list (list F)) (sg : list (nat * F)) (v : list A) :
+  lin azero aadd ascale (map (fun p => map (fmul K (snd p)) (nth (fst p) T [])) sg) v
+  = map (fun p => ascale (snd p) (nth (fst p) (lin azero aadd ascale T v) (dot azero aadd ascale [] v))) sg.
+Proof.
+  unfold lin. rewrite map_map. apply map_ext. intros [k s]. cbn [fst snd].
+  rewrite dot_scaled. f_equal. now rewrite (map_nth (fun t => dot azero aadd ascale t v)).
+Qed.
+End ConvOut.
+
+(* ------------------------------------------------------------------ *)
 (* Packaged hypotheses and the statements exported to Props/C09.v      *)
 (* ------------------------------------------------------------------ *)
 (* laws of the module of entries, relativised to the well-shaped entries P
@@ -663,3 +731,126 @@ Lemma shell_ok_example {F} (K : Fops F) (x y : F) :
 Proof.
   repeat constructor; cbn; try discriminate; intros _; repeat split; try discriminate; repeat constructor.
 Qed.
+
+Section Export2.
+Context {F : Type} (K : Fops F).
+Context {A : Type} (azero : A) (aadd : A -> A -> A) (ascale : F -> A -> A) (P : A -> Prop).
+Hypothesis ML : module_laws K azero aadd ascale P.
+
+Lemma block2_is_cart_transformed_L sph1 sph2 s1 s2 blk :
+  block2_ok ascale P sph1 sph2 s1 s2 blk ->
+  block2 azero aadd ascale sph1 sph2 s1 s2 blk
+  = mat_left_w azero aadd ascale (axis_width sph2 s2) (U_left K ascale sph1 s1 s2 blk)
+      (mat_right azero aadd ascale (U_of K sph2 s2) (block2 azero aadd ascale false false s1 s2 blk)).
+Proof. destruct ML as (H1 & H2 & H3 & H4 & H5 & H6 & H7). now apply (block2_is_cart_transformed K azero aadd ascale P). Qed.
+
+Lemma asm_blocks_L n1 n2 (U1 U2 : nat -> list (list F)) (Cf Bf : nat -> nat -> list (list A)) :
+  0 < n2 ->
+  (forall i j, i < n1 -> j < n2 ->
+     Bf i j = mat_left_w azero aadd ascale (length (U2 j)) (U1 i) (mat_right azero aadd ascale (U2 j) (Cf i j))) ->
+  (forall i, i < n1 -> rect (U1 i)) -> (forall j, j < n2 -> rect (U2 j)) ->
+  (forall i j, i < n1 -> j < n2 -> length (Cf i j) = ncols (U1 i) /\ mat_ok P (ncols (U2 j)) (Cf i j)) ->
+  two_asymm_blocks n1 n2 Bf
+  = mat_left_w azero aadd ascale (fold_right plus 0 (mk n2 (fun j => length (U2 j)))) (bdiag K (mk n1 U1))
+      (mat_right azero aadd ascale (bdiag K (mk n2 U2)) (two_asymm_blocks n1 n2 Cf)).
+Proof. destruct ML as (H1 & H2 & H3 & H4 & H5 & H6 & H7). now apply (asm_blocks K azero aadd ascale P). Qed.
+
+Lemma two_asymm_mix_is_cart_transformed_L ss1 ss2 bf :
+  0 < length ss1 -> 0 < length ss2 ->
+  (forall i j, i < length ss1 -> j < length ss2 ->
+     pair_ok K azero aadd ascale P (nth i ss1 (mkSh false [] [])) (nth j ss2 (mkSh false [] [])) (bf i j)) ->
+  two_asymm_n azero aadd ascale 2 ss1 ss2 bf
+  = mat_left_w azero aadd ascale (Wlist K ss2) (Ulist K ss1)
+      (mat_right azero aadd ascale (Ulist K ss2) (two_asymm_n azero aadd ascale 0 ss1 ss2 bf)).
+Proof. destruct ML as (H1 & H2 & H3 & H4 & H5 & H6 & H7). now apply (two_asymm_mix_is_cart_transformed K azero aadd ascale P). Qed.
+
+Lemma two_symm_mix_is_cart_transformed_partial_L ss bf :
+  0 < length ss ->
+  (forall i j, i < length ss -> j < length ss ->
+     pair_ok K azero aadd ascale P (nth i ss (mkSh false [] [])) (nth j ss (mkSh false [] [])) (bf i j)) ->
+  (forall i j, j <= i -> i < length ss ->
+     let C := block2 azero aadd ascale false false (nth j ss (mkSh false [] [])) (nth i ss (mkSh false [] [])) (bf j i) in
+     transpose azero (mat_left_w azero aadd ascale (length (Ui K ss i)) (Ui K ss j) (mat_right azero aadd ascale (Ui K ss i) C))
+     = mat_left_w azero aadd ascale (length (Ui K ss j)) (Ui K ss i) (mat_right azero aadd ascale (Ui K ss j) (transpose azero C)) /\
+     length (transpose azero C) = ncols (Ui K ss i) /\ mat_ok P (ncols (Ui K ss j)) (transpose azero C)) ->
+  two_symm_n azero aadd ascale 2 ss bf
+  = mat_left_w azero aadd ascale (Wlist K ss) (Ulist K ss)
+      (mat_right azero aadd ascale (Ulist K ss) (two_symm_n azero aadd ascale 0 ss bf)).
+Proof. destruct ML as (H1 & H2 & H3 & H4 & H5 & H6 & H7). now apply (two_symm_mix_is_cart_transformed_partial K azero aadd ascale P). Qed.
+End Export2.
+
+(* the shape hypotheses are satisfiable: one spherical shell (M = 1, two components, 1 x 2
+   transform) with itself *)
+Lemma pair_ok_example {F} (K : Fops F) (a b c d : F) :
+  let s := mkSh true [[f1 K; f1 K]] [[f1 K; f1 K]] in
+  pair_ok K (f0 K) (fadd K) (fmul K) (fun _ => True) s s [[ [[a; b]]; [[c; d]] ]].
+Proof.
+  cbv zeta. unfold pair_ok, block2_ok, slab_ok, ax_ok, U_left, U_of, Ushape, mat_ok, Prow, rect.
+  cbn. repeat split; try discriminate; repeat constructor; intros; discriminate.
+Qed.
+
+(* ------------------------------------------------------------------ *)
+(* Four indices: one block, first index (PARTIAL)                      *)
+(* ------------------------------------------------------------------ *)
+Lemma module_laws_rows {F} (K : Fops F) {X} (xzero : X) xadd xscale (P : X -> Prop) :
+  module_laws K xzero xadd xscale P ->
+  forall w, module_laws K (rzero xzero w) (radd xadd) (rscale xscale) (Prow P w).
+Proof.
+  intros (H1 & H2 & H3 & H4 & H5 & H6 & H7) w. repeat split.
+  - apply repeat_length.
+  - apply Forall_forall. intros x Hx. apply repeat_spec in Hx. now subst.
+  - destruct (Prow_add xadd P H2 w x y H H0) as [L _]. exact L.
+  - destruct (Prow_add xadd P H2 w x y H H0) as [_ L]. exact L.
+  - destruct (Prow_scale xscale P H3 w t x H) as [L _]. exact L.
+  - destruct (Prow_scale xscale P H3 w t x H) as [_ L]. exact L.
+  - intros x Hx. eapply row_A0l; eauto.
+  - intros x Hx. eapply row_A0r; eauto.
+  - intros x Hx. eapply (row_S0 K); eauto.
+  - intros x Hx. eapply (row_S1 K); eauto.
+Qed.
+
+Lemma axis_tr_lin_L {F} (K : Fops F) {X} (xzero : X) xadd xscale (P : X -> Prop) :
+  module_laws K xzero xadd xscale P -> forall sph T nb, ax_ok P sph T nb ->
+  axis_tr xzero xadd xscale sph T nb = lin xzero xadd xscale (Ush K sph T nb) (concat nb).
+Proof. intros (H1 & H2 & H3 & H4 & H5 & H6 & H7) sph T nb H. now apply (axis_tr_lin K xzero xadd xscale P). Qed.
+
+Section FourP.
+Context {F : Type} (K : Fops F).
+Context {A : Type} (azero : A) (aadd : A -> A -> A) (ascale : F -> A -> A) (P : A -> Prop).
+Hypothesis ML : module_laws K azero aadd ascale P.
+
+(* the block after normalisation and the processing of indices 2, 3, 4:
+   b2[m1][c1] is an (n2, n3, n4) array *)
+Definition b2_of (t2 t3 t4 : bool) (s1 s2 s3 s4 : @sh F)
+           (blk : list (list (list (list (list (list (list (list A)))))))) :=
+  let b := normalise4 ascale (sh_n s1) (sh_n s2) (sh_n s3) (sh_n s4) blk in
+  let w4 := axis_width t4 s4 in let w3 := axis_width t3 s3 in
+  let z1 := rzero azero w4 in let z2 := rzero z1 w3 in
+  let b4 := map (map (map (map (map (map (axis_tr azero aadd ascale t4 (sh_T s4))))))) b in
+  let b3 := map (map (map (map (axis_tr z1 (r1add aadd) (r1scale ascale) t3 (sh_T s3))))) b4 in
+  map (map (axis_tr z2 (r2add aadd) (r2scale ascale) t2 (sh_T s2))) b3.
+
+Definition P3 (t2 t3 t4 : bool) (s2 s3 s4 : @sh F) : list (list (list A)) -> Prop :=
+  Prow (Prow (Prow P (axis_width t4 s4)) (axis_width t3 s3)) (axis_width t2 s2).
+
+(* index 1 of a four-index block: the processed block is T_s1 applied to index 1 of the block
+   whose first index is left Cartesian (the other three indices processed alike on both sides) *)
+Lemma block4_index1_partial t1 t2 t3 t4 s1 s2 s3 s4 blk :
+  ax_ok (P3 t2 t3 t4 s2 s3 s4) t1 (sh_T s1) (b2_of t2 t3 t4 s1 s2 s3 s4 blk) ->
+  block4 azero aadd ascale t1 t2 t3 t4 s1 s2 s3 s4 blk
+  = lin (rzero (rzero (rzero azero (axis_width t4 s4)) (axis_width t3 s3)) (axis_width t2 s2))
+        (r3add aadd) (r3scale ascale)
+        (Ush K t1 (sh_T s1) (b2_of t2 t3 t4 s1 s2 s3 s4 blk))
+        (block4 azero aadd ascale false t2 t3 t4 s1 s2 s3 s4 blk).
+Proof.
+  intros H.
+  change (block4 azero aadd ascale t1 t2 t3 t4 s1 s2 s3 s4 blk)
+    with (axis_tr (rzero (rzero (rzero azero (axis_width t4 s4)) (axis_width t3 s3)) (axis_width t2 s2))
+            (r3add aadd) (r3scale ascale) t1 (sh_T s1) (b2_of t2 t3 t4 s1 s2 s3 s4 blk)).
+  change (block4 azero aadd ascale false t2 t3 t4 s1 s2 s3 s4 blk)
+    with (concat (b2_of t2 t3 t4 s1 s2 s3 s4 blk)).
+  apply (axis_tr_lin_L K _ _ _ (P3 t2 t3 t4 s2 s3 s4)); [|exact H].
+  unfold P3, r3add, r3scale, r2add, r2scale, r1add, r1scale.
+  apply module_laws_rows, module_laws_rows, module_laws_rows, ML.
+Qed.
+End FourP.
